@@ -126,7 +126,148 @@ PROPS["C18"] = dict(
                          "flags_000": (10, 100), "flags_111": (10, 100)}),
 )
 
+# ---------------------------------------------------------------------------------------------
+# session-level properties: one process per configuration (limits are process-global lazy statics)
+
+FULL = dict(pkg="xv_full", binname="xv_full")
+
+
+def senv(target, xb, xc, ib=None, shard_min=None, nranges=None):
+    e = {"HF_XET_TARGET_CHUNK_SIZE": target, "XV_EXPECT_TARGET": target, "HF_XET_MAX_XORB_BYTES": xb, "HF_XET_MAX_XORB_CHUNKS": xc}
+    if ib is not None:
+        e["HF_XET_INGESTION_BLOCK_SIZE"] = ib
+    if shard_min is not None:
+        e["HF_XET_MDB_SHARD_MIN_TARGET_SIZE"] = shard_min
+    if nranges is not None:
+        e["HF_XET_NRANGES_IN_STREAMING_FRAGMENTATION_ESTIMATOR"] = nranges
+    return e
+
+
+def session_jobs(scale=1.0):
+    """The configuration matrix of the session engine.  workers/cases are (quick, thorough)."""
+    def c(q, t):
+        return (max(1, int(q * scale)), max(1, int(t * scale)))
+    return [
+        Job("sess-t1024-x16k-c8", engine="session", profile="smallchunk", env=senv(1024, 16384, 8, ib=65536, shard_min=8192),
+            workers=(3, 3), cases=c(60, 6000), time_s=(45, 800), **FULL),
+        Job("sess-t256-x1k-c64", engine="session", profile="smallchunk", env=senv(256, 1024, 64, ib=512, shard_min=1024),
+            workers=(2, 2), cases=c(60, 6000), time_s=(45, 800), args={"max-file-bytes": 20000}, **FULL),
+        Job("sess-t4096-x256k-c2", engine="session", profile="smallchunk", env=senv(4096, 262144, 2),
+            workers=(2, 2), cases=c(40, 4000), time_s=(45, 800), args={"max-file-bytes": 200000}, **FULL),
+        Job("sess-defrag-t1024-n16", engine="session", profile="smallchunk", env=senv(1024, 65536, 64, nranges=16),
+            workers=(3, 3), cases=c(25, 2500), time_s=(45, 800), args={"defrag-focus": True, "max-file-bytes": 400000}, **FULL),
+        Job("sess-repeat-t1024-fragoff", engine="session", profile="smallchunk", env=senv(1024, 16384, 8, shard_min=4096, nranges=100000),
+            workers=(3, 3), cases=c(60, 6000), time_s=(45, 800), args={"repeat-bias": True, "no-global": True}, **FULL),
+        Job("sess-prod-x1m-c16", engine="session", profile="prodlike", env=senv(65536, 1048576, 16),
+            workers=(3, 3), cases=c(6, 600), time_s=(45, 800), args={"max-file-bytes": 3000000, "max-files": 4, "max-sessions": 3}, **FULL),
+    ]
+
+
+SESSION_ASSUMPTIONS = [
+    "store = the repository's LocalClient behind a recording wrapper (remote HTTP upload path not driven)",
+    "interleavings of concurrently cleaned files are sampled (1/2/4/16 worker runtimes, seeded store delays), not enumerated",
+    "reference chunker / merkle / sha256 are independent implementations; shards handed to the store are parsed with the repository's shard reader (judged separately by C09)",
+]
+
+SESSION_RULE = ("case = history of 1..4 upload sessions against one store (1..6 files per session built from recipes: fresh / const / periodic / low-entropy / "
+                "copies of earlier files at arbitrary offsets / self-copies / interleaved short dedup runs; sizes biased to 0, 1, chunk and xorb limits +-1, multi-xorb; "
+                "8 feed partitions; files cleaned sequentially or concurrently on 1/2/4/16-worker runtimes; seeded put / shard-upload delays; sessions with a fresh shard cache "
+                "exercise global dedup) under 6 limit configurations (one process each); every session whose calls all returned Ok is judged by all monitors. ")
+
+PROPS["C01"] = dict(
+    level="exploration",
+    technique="end-to-end history monitor: bytes fed vs bytes downloaded (whole file + ranges) through a new FileDownloader after every successful session",
+    rule=SESSION_RULE + "evaluation = one successful session; every file is downloaded whole and in ~12 ranges (first/last byte, around segment boundaries, random, empty); "
+         "non-trivial = session with dedup, >=2 xorbs or a xorb shared by files; distinct = (config, session index, #files, workers, concurrency, kinds observed)",
+    assumptions=SESSION_ASSUMPTIONS + ["byte ranges stay within [0, len]"],
+    jobs=session_jobs(),
+    gates=dict(evaluations=(400, 20000), distinct=(150, 1000),
+               counters={"files_round_tripped": (800, 40000), "ranges_downloaded": (8000, 400000), "sessions_with_dedup": (100, 5000), "sessions_with_global-dedup": (5, 200),
+                         "sessions_with_defrag-withheld": (20, 500), "sessions_with_cross-session-ref": (50, 2000), "sessions_with_shared-xorb": (100, 2000)}),
+)
+
+PROPS["C02"] = dict(
+    level="exploration",
+    technique="store/shard consistency monitor: every stored xorb through an independent parser + the code's validator; every file record resolved against validated xorbs and recomputed hashes",
+    rule=SESSION_RULE + "evaluation = one file of a successful session (its record located in the shards handed to upload_shard and resolved chunk by chunk); "
+         "non-trivial = record with >=2 segments or >=2 xorbs; distinct = (#segments, #xorbs, #chunks buckets, references an earlier session's xorb)",
+    assumptions=SESSION_ASSUMPTIONS,
+    jobs=session_jobs(),
+    gates=dict(evaluations=(800, 40000), distinct=(40, 150), counters={"stored_xorbs_validated": (2000, 100000)}),
+)
+
+PROPS["C03"] = dict(
+    level="exploration",
+    technique="reference-model monitor: pointer (hash, size) of every cleaned file vs ref chunker + ref merkle + salt, across feed partitions, store states and concurrency",
+    rule=SESSION_RULE + "evaluation = one cleaned file; its pointer must equal the absolute reference, so equal bytes give equal pointers however they were fed, "
+         "whatever was deduplicated and whichever process cleaned them; non-trivial = >=2 chunks; distinct = (partition kind, #chunks bucket, workers, concurrency, deduped)",
+    assumptions=SESSION_ASSUMPTIONS + ["'different salts give different hashes' is judged through the reference (zero and random salts are used; an empty file has the zero hash under every salt)"],
+    jobs=session_jobs(),
+    gates=dict(evaluations=(800, 40000), distinct=(150, 600), counters={"files_with_dedup": (200, 10000)}),
+)
+
+PROPS["C11"] = dict(
+    level="exploration",
+    technique="history monitor over the store-client log: every xorb put by a session must be in that session's uploaded shards; no chunk stored by an earlier finalized session is put again",
+    rule=SESSION_RULE + "evaluation = one successful session; clause (a) structural per put; clause (b) per session sharing the shard cache with earlier sessions "
+         "(violation only if fragmentation prevention is off or reported no withheld chunk); one configuration runs with fragmentation prevention disabled and re-upload-biased recipes; "
+         "non-trivial/distinct as C01",
+    assumptions=SESSION_ASSUMPTIONS + ["sessions that deliberately use a fresh shard cache (global-dedup variant) are exempt from clause (b)"],
+    jobs=session_jobs(),
+    gates=dict(evaluations=(400, 20000), distinct=(150, 1000), counters={"new_xorbs_found_in_shards": (2000, 100000), "sessions_checked_for_reupload": (300, 15000)}),
+)
+
+PROPS["C14"] = dict(
+    level="exploration",
+    technique="conservation monitor: returned metrics vs bytes fed, sums over files and the store-client log (put return values, shard bytes)",
+    rule=SESSION_RULE + "evaluation = one file (conservation, pointer size) plus session-level sums; a dedicated configuration (16-range estimator, interleave recipes of up to 300 short dedup runs) "
+         "drives fragmentation prevention; non-trivial = >=2 chunks; distinct = (deduped, new, withheld, global, #chunks bucket)",
+    assumptions=SESSION_ASSUMPTIONS + ["Prometheus counters are not read"],
+    jobs=session_jobs(),
+    gates=dict(evaluations=(800, 40000), distinct=(15, 40), counters={"files_with_fragmentation_prevention": (30, 1000), "sessions_with_xorb_uploads": (300, 15000), "sessions_checked": (400, 20000)}),
+)
+
+PROPS["C15"] = dict(
+    level="exploration",
+    technique="limit monitor on every put / upload_shard argument recorded at the client boundary, against the limits the harness put in the environment",
+    rule=SESSION_RULE + "evaluation = one successful session (all its puts and shards checked); configurations are chunk-count-limited (2, 8, 64 chunks) and byte-limited (4x, 16x, 64x target); "
+         "non-trivial/distinct as C01",
+    assumptions=SESSION_ASSUMPTIONS,
+    jobs=session_jobs(),
+    gates=dict(evaluations=(400, 20000), distinct=(150, 1000), counters={"puts_checked": (2000, 100000), "puts_at_chunk_limit": (500, 20000), "puts_within_one_chunk_of_byte_limit": (20, 1000)}),
+)
+
+PROPS["C16"] = dict(
+    level="fault_enumeration",
+    technique="fault enumeration at the store-client boundary: each put and each upload_shard of a session fails in turn (plus random multi-fault sets); ordering judged on the event log",
+    rule=("for each generated session: a fault-free run counts its store calls, then one run per call with that call failing (every put ordinal, every upload_shard ordinal; "
+          "exhaustive when <= max-points calls, sampled otherwise) and random 2-4-fault sets, with seeded delays on 1/4/16-worker runtimes and two caller policies "
+          "(abandon the session / give up on the failing file and finalize); evaluation = one faulty run in which the fault was actually injected; "
+          "violation = every call returned Ok although a store call failed, or a shard handed over before / without a successful put of a referenced xorb; "
+          "the ordering clause is also judged on every fault-free session of the session engine; distinct = (config, op, ordinal bucket, policy, concurrency, workers, where the error surfaced)"),
+    assumptions=SESSION_ASSUMPTIONS + ["failures of the local file system underneath the client are covered by C19, not here"],
+    jobs=[
+        Job("faults-t1024", engine="faults", profile="smallchunk", env=senv(1024, 16384, 8, ib=65536, shard_min=8192),
+            workers=(5, 6), cases=(8, 500), time_s=(45, 800), args={"max-files": 8, "max-file-bytes": 300000, "max-points": (30, 60)}, **FULL),
+        Job("faults-t256", engine="faults", profile="smallchunk", env=senv(256, 1024, 64, ib=512, shard_min=1024),
+            workers=(5, 6), cases=(8, 500), time_s=(45, 800), args={"max-files": 6, "max-file-bytes": 20000, "max-points": (30, 60)}, **FULL),
+        Job("sess-t1024-x16k-c8", engine="session", profile="smallchunk", env=senv(1024, 16384, 8, ib=65536, shard_min=8192),
+            workers=(4, 4), cases=(40, 3000), time_s=(45, 800), **FULL),
+    ],
+    gates=dict(evaluations=(800, 30000), distinct=(100, 400),
+               counters={"fault_runs_injected": (600, 25000), "sessions_with_every_single_fault_point_enumerated": (40, 2000), "shard_uploads_order_checked": (150, 8000),
+                         "error_surfaced_at_add_data": (10, 300), "error_surfaced_at_finalize": (100, 3000)}),
+    exhaustive_note="single-fault points: every put and upload_shard ordinal of a session when the session has <= max-points store calls",
+)
+
 LEVEL_TEXT = {
+    "C01": "Held on the explored histories: after every successful session each file was downloaded by a fresh downloader, whole and in ranges, and compared byte for byte with what was fed. Sampling over contents, partitions, limits and schedules; hostile generators (limits +-1, interleaved dedup, cross-session and cross-file references, global dedup).",
+    "C02": "Held on the explored sessions: every stored xorb decoded under an independent parser with name == recomputed hash; every file record resolved to existing xorbs, in-range chunks and exact byte sums; file hash, per-segment verification hashes and SHA-256 equalled independent recomputation from the original bytes.",
+    "C03": "Held on the explored files: pointer hash and size equalled an absolute reference (independent chunker + merkle + salt), hence are a function of bytes and salt only, across 8 feed partitions, prior store states, dedup outcomes and concurrent cleaning.",
+    "C11": "Held on the explored histories: each xorb a session stored was described in that session's shards, and no later session sharing the shard cache uploaded a chunk an earlier finalized session had stored (fragmentation prevention accounted for).",
+    "C14": "Held on the explored files and sessions: sizes and metrics conserved (new + deduped = total, withheld <= new, session = sum of files, upload byte counts = what the store calls carried), including runs where fragmentation prevention engaged.",
+    "C15": "Held on the explored sessions: every xorb handed to the store respected the configured chunk/byte limits and wire-format widths with strictly increasing boundaries; no shard carried an unresolved xorb reference.",
+    "C16": "Fault enumeration: every store call of each enumerated session was failed in turn; in every injected run some session call returned an error, and no shard was ever handed over before/without its xorbs. Exhaustive over single faults per session (bounded), sampled over multi-fault sets and schedules.",
     "C04": "Held on the explored (stream, partition, target) cases: the real chunker's output was compared chunk by chunk with an independent implementation of the gear-hash rule, plus bounds, concatenation, hash and locality clauses. Sampling, not proof; adversarial and boundary-biased generators make the sample hostile.",
     "C06": "Held on the explored chunk lists / byte strings: every aggregate, leaf and range hash equalled an independent blake3 construction and committed golden values; 4 mutation kinds changed the aggregate; both validators recomputed the uploader's hash.",
     "C07": "Held on the explored xorbs: every byte, range, boundary and offset returned by the reader equalled the input and an independent parser's view; sync/async/stream chunk decoders agreed; bg4 exhaustive over lengths.",
